@@ -41,7 +41,8 @@ def task_table(I):
     for v in iso.ALL_VERSIONS:
         key = None if v >= 1 else v
         I.ground('C13.table.terminator_length', c.TERMINATOR_LENGTH.get(key) == iso.terminator_len(v),
-                 witness=dict(version=iso.version_name(v), got=c.TERMINATOR_LENGTH.get(key), want=iso.terminator_len(v)))
+                 witness=dict(version=iso.version_name(v), got=c.TERMINATOR_LENGTH.get(key), want=iso.terminator_len(v)),
+                 replay=dict(fn='replay_padding_table', version=v))
 
 
 def _buffer(I, length):
